@@ -14,6 +14,7 @@ import (
 	ros "os"
 	"path/filepath"
 	"sort"
+	"strconv"
 	"strings"
 	rsync "sync"
 	"syscall"
@@ -84,6 +85,8 @@ type MemFS struct {
 	faults map[string]map[int]bool
 	// FinePoints makes File.Write/Read/Close scheduling points too.
 	FinePoints bool
+	hashed     int
+	logHash    uint64
 }
 
 func NewMemFS() *MemFS {
@@ -116,10 +119,45 @@ func (m *MemFS) enter(kind, path string) error {
 	m.mu.Lock()
 	defer m.mu.Unlock()
 	m.counts[kind]++
+	b := filepath.Base(path)
+	if i := strings.IndexByte(b, '_'); i > 0 {
+		m.counts[kind+":"+b[:i]]++
+	}
 	if m.faults[kind][m.counts[kind]] {
 		return &fs.PathError{Op: kind, Path: path, Err: syscall.EIO}
 	}
 	return nil
+}
+
+// LogHash summarises the append-only operation log (length + kinds + paths + payload sizes).
+func (m *MemFS) LogHash() string {
+	m.mu.Lock()
+	defer m.mu.Unlock()
+	for ; m.hashed < len(m.Log); m.hashed++ {
+		op := m.Log[m.hashed]
+		for _, s := range []string{op.Kind, op.Path, op.To} {
+			for i := 0; i < len(s); i++ {
+				m.logHash = (m.logHash ^ uint64(s[i])) * 1099511628211
+			}
+		}
+		m.logHash = (m.logHash ^ uint64(len(op.Data))) * 1099511628211
+	}
+	return strconv.FormatUint(m.logHash, 16) + "/" + strconv.Itoa(len(m.Log))
+}
+
+// ClearFaults forgets every pending fault.
+func (m *MemFS) ClearFaults() {
+	m.mu.Lock()
+	defer m.mu.Unlock()
+	m.faults = map[string]map[int]bool{}
+}
+
+// Exists reports whether a file exists.
+func (m *MemFS) Exists(path string) bool {
+	m.mu.Lock()
+	defer m.mu.Unlock()
+	_, ok := m.files[filepath.Clean(path)]
+	return ok
 }
 
 // Snapshot returns a deep copy of the file contents and directories.
